@@ -356,6 +356,13 @@ def perturbations(sp, rnd, gt):
                                 emit("expr." + sk, lambda s2, p=ep, sk=sk,
                                      oth=oth: locate(s2, p).__setitem__(
                                          sk, rnd.choice(oth)))
+                    if "sym2" in e and e["sym2"] != e["sym"]:
+                        # two fields changed at once, each to the other's
+                        # value: the operands of (sym1 - sym2) exchanged
+                        def swap(s2, p=ep):
+                            x = locate(s2, p)
+                            x["sym"], x["sym2"] = x["sym2"], x["sym"]
+                        emit("expr.symbols-exchanged", swap)
                     known = sorted(E["SymAttribute"].values())
                     miss = [a for a in known if a not in e["attrs"]]
                     emit("expr.attrs:add-known", lambda s2, p=ep, miss=miss:
@@ -373,6 +380,45 @@ def perturbations(sp, rnd, gt):
                             x["scale"] = 1
                             x["sym2"] = x["sym"]
                         emit("expr.kind:const-to-addr", to_addr)
+
+    # ---- one field's values exchanged between two siblings ---------------
+    # (every multiset of values stays what it was; only who has which changes)
+    def sibling_lists(s2):
+        out = [("module", s2["modules"], ("name", "isa", "rebase_delta"))]
+        for m in s2["modules"]:
+            out.append(("symbol", m["symbols"], ("name", "at_end",
+                                                 "payload")))
+            out.append(("section", m["sections"], ("name", "flags")))
+            for s_ in m["sections"]:
+                out.append(("interval", s_["intervals"],
+                            ("address", "size", "contents")))
+                for bi in s_["intervals"]:
+                    out.append(("block", bi["blocks"], ("offset", "size")))
+        return out
+
+    seen_ex = set()
+    for kind, lst, fields in sibling_lists(sp):
+        for f in fields:
+            if (kind, f) in seen_ex:
+                continue
+            if len({repr(x.get(f)) for x in lst}) >= 2:
+                seen_ex.add((kind, f))
+
+                def exch(s2, kind=kind, f=f):
+                    cands = [l for k, l, _ in sibling_lists(s2)
+                             if k == kind and
+                             len({repr(x.get(f)) for x in l}) >= 2]
+                    if not cands:
+                        return False
+                    l = rnd.choice(cands)
+                    a = rnd.choice(l)
+                    b = rnd.choice([x for x in l
+                                    if repr(x.get(f)) != repr(a.get(f))])
+                    if kind == "block" and a.get("kind") != b.get("kind") \
+                            and f not in a:
+                        return False
+                    a[f], b[f] = b[f], a[f]
+                emit("exchange:%s.%s" % (kind, f), exch)
 
     # ---- the containment tree alone: the same nodes under other parents ---
     # (move: the two parents' child counts change; exchange: every count,
